@@ -1,3 +1,4 @@
+pub mod ir;
 pub mod isolate;
 pub mod member;
 pub mod props;
